@@ -52,21 +52,34 @@ finally:
     sh(f"git -C /repo worktree remove --force {wt}")
     shutil.rmtree(wt, ignore_errors=True)
 
+inplace = "--in-repo" in sys.argv
 confirmed = meta.get("patch_applies") and "passed" in meta.get("suite_with_change", "") and "failed" not in meta.get("suite_with_change", "") \
     and meta["demo_with_change"]["exit"] != 0 and meta["demo_without_change"]["exit"] == 0
 meta["confirmed"] = bool(confirmed)
 results = {}
 if confirmed:
-    assert sh("git -C /repo status --porcelain").stdout.strip() == "", "/repo is dirty"
-    assert sh(f"git -C /repo apply {patch}").returncode == 0
+    if inplace:
+        assert sh("git -C /repo status --porcelain").stdout.strip() == "", "/repo is dirty"
+        assert sh(f"git -C /repo apply {patch}").returncode == 0
+        envp = ""
+    else:
+        # evaluation on a scratch worktree of /repo HEAD with the patch applied (VERIF_REPO), used while other runs need /repo itself
+        assert sh(f"git -C /repo worktree add -q --detach {wt} HEAD").returncode == 0
+        assert sh(f"git -C {wt} apply {patch}").returncode == 0
+        envp = f"VERIF_REPO={wt} "
+    meta["checked_against"] = "/repo with the patch applied (git apply ... git checkout -- .)" if inplace else f"scratch worktree of /repo HEAD with the patch applied ({wt}, via VERIF_REPO)"
     try:
         for c in checks.split(","):
             t0 = time.time()
-            r = sh(f"cd /verif && ./check {c} --tier {tier}")
+            r = sh(f"cd /verif && {envp}./check {c} --tier {tier}")
             lines = [ln[:400] for ln in r.stdout.splitlines() if ln.startswith(("VIOLATION", "  counterexample", "INCONCLUSIVE", "KNOWN"))]
             results[c] = {"exit": r.returncode, "seconds": round(time.time() - t0, 1), "lines": lines[:6]}
     finally:
-        sh("git -C /repo checkout -- .")
+        if inplace:
+            sh("git -C /repo checkout -- .")
+        else:
+            sh(f"git -C /repo worktree remove --force {wt}")
+            shutil.rmtree(wt, ignore_errors=True)
 meta["checks"] = results
 meta["caught_by"] = [c for c, v in results.items() if v["exit"] == 1]
 meta["commands"] = ran
